@@ -216,6 +216,10 @@ def sym__process(vc):
 
     def thunk(it):
         d = mk_dsp(it)
+        # a step object may be chained and processed more than once (the same Flow evaluated again, the same step list used
+        # elsewhere): whatever its methods cached on it earlier is arbitrary
+        from contracts.common import havoc_mutable_scalars
+        havoc_mutable_scalars(it, d, containers=True, memo_none=True)
         m = it.module('dataflows.base.datastream_processor')
         up_desc = Tree('upstream_descriptor')
         up_dp = Opaque('Package', 'upstream_dp')
@@ -781,6 +785,38 @@ def nat_lazy_vs_stepwise(h):
         st = steps()
         viads = h.run(lambda: [list(r) for r in Flow(*sources(), *st).datastream().res_iter])
         h.check(viads[0] == 'ok' and viads[1] == lazy[1][0], 'dataflows/base/flow.py::Flow.datastream', (cfg, 'datastream'), 'same', viads[:1])
+        # "the same steps": the very step objects that just ran lazily are now evaluated one by one on materialised data
+        # (a step object must not carry its first run over into its next use)
+        def stepwise_same():
+            res, dp, _ = Flow(*sources()).results(on_error=None)
+            for s in st:
+                res, dp, _ = Flow(load_mat(dp, res), s).results(on_error=None)
+            return res, dp
+        again = h.run(stepwise_same)
+        # (a step object that refuses a second use by raising -- validate() does, its selector is consumed by the first run --
+        # is loud, not wrong; what must not happen is a second use that runs and silently answers for the first input)
+        if again[0] == 'ok':
+            h.check(again[1][0] == lazy[1][0], 'dataflows/base/datastream_processor.py::DataStreamProcessor._process',
+                    (cfg, 'same step objects, stepwise'), 'same', 'rows' if n > 20 else again[1][0])
+    # class-based step objects used a second time, on another input and through another entry point
+    from dataflows import update_resource as _ur, set_primary_key as _spk
+    for mk in (lambda: set_type('a', type='number'), lambda: _ur(None, title='x'), lambda: _spk(['a']), lambda: printer(num_rows=1)):
+        s = mk()
+        d1 = [{'a': i, 'b': 'x%d' % i} for i in range(3)]
+        d2 = [{'a': 10 + i, 'b': 'y%d' % i} for i in range(150)]
+        first = h.run(lambda: Flow([dict(r) for r in d1], s).results(on_error=None)[0])
+        second = h.run(lambda: Flow([dict(r) for r in d2], s).results(on_error=None)[0])
+        fresh = h.run(lambda: Flow([dict(r) for r in d2], mk()).results(on_error=None)[0])
+        if first[0] == 'ok' and second[0] == 'ok' and fresh[0] == 'ok':
+            h.check(second[1] == fresh[1], 'dataflows/base/datastream_processor.py::DataStreamProcessor._process',
+                    (type(s).__name__, 'second use on another input'), 'rows of the second input', 'rows differ (%d vs %d rows)' % (
+                        len(second[1][0]) if second[1] else -1, len(fresh[1][0]) if fresh[1] else -1))
+        f = Flow([dict(r) for r in d2], mk())
+        a = h.run(lambda: f.results(on_error=None)[0])
+        b = h.run(lambda: [list(r) for r in f.datastream().res_iter])
+        if a[0] == 'ok' and b[0] == 'ok':
+            h.check(a[1] == b[1], 'dataflows/base/datastream_processor.py::DataStreamProcessor._process',
+                    (type(s).__name__, 'same Flow through results() then datastream()'), 'same rows', (len(a[1][0]), len(b[1][0]) if b[1] else -1))
     for junk in (5, object(), 3.5):
         r = h.run(lambda: Flow([{'a': 1}], junk).results())
         h.check(r[0] == 'exc', 'dataflows/base/flow.py::Flow._chain', repr(junk), 'rejected', r[:2])
